@@ -1445,3 +1445,154 @@ mutant("c05-any-half", "C05", (HG, "y = np.full_like(x, 1.0)", "y = np.full_like
 mutant("c05-extremely-upper-coefficient", "C05", (HG, "1 - 2 * (1 - x) ** 2)", "1 - (1 - x) ** 2)"), "F")
 equivalent("c05-eq-extremely-open-branch", "C05", (HG, "y = np.where(x <= 0.5, 2 * x**2,", "y = np.where(x < 0.5, x * x * 2,"))
 equivalent("c05-eq-seldom-division", "C05", (HG, "np.sqrt(0.5 * x), 1 - np.sqrt(0.5 * (1 - x))", "np.sqrt(x / 2), 1 - np.sqrt((1 - x) / 2)"))
+
+# ------------------------------------------------------------------------------------------ pushdown rules (PD / PD2), session 3
+PD_PROPS = ["C06", "C16", "C17"]
+mutant("pd-comma-no-pop", PD_PROPS, (T, """            elif token == ",":
+                while stack and stack[-1] != "(":
+                    queue.append(stack.pop())""", """            elif token == ",":
+                while stack and stack[-1] == "(":
+                    queue.append(stack.pop())"""), "PD/Function.infix_to_postfix")
+mutant("pd-function-not-popped-after-group", PD_PROPS, (T, """                    if factory.objects[stack[-1]].is_function():
+                        queue.append(stack.pop())""", """                    if factory.objects[stack[-1]].is_operator():
+                        queue.append(stack.pop())"""), "PD/Function.infix_to_postfix/transducer")
+mutant("pd-operand-to-stack", PD_PROPS, (T, """            if is_operand:
+                queue.append(token)""", """            if is_operand:
+                queue.appendleft(token)"""), "")
+mutant("pd-lparen-not-pushed", PD_PROPS, (T, """            elif token == "(":
+                stack.append(token)""", """            elif token == "(":
+                pass"""), "PD/Function.infix_to_postfix")
+mutant("pd-end-accepts-paren", PD_PROPS, (T, """            if stack[-1] in {"(", ")"}:
+                raise SyntaxError(f"mismatching parentheses in: {formula}")
+            queue.append(stack.pop())""", """            if stack[-1] in {")"}:
+                raise SyntaxError(f"mismatching parentheses in: {formula}")
+            queue.append(stack.pop())"""), "PD/Function.infix_to_postfix/unbalanced")
+mutant("pd-end-fifo", PD_PROPS, (T, """                raise SyntaxError(f"mismatching parentheses in: {formula}")
+            queue.append(stack.pop())
+
+        postfix""", """                raise SyntaxError(f"mismatching parentheses in: {formula}")
+            queue.append(stack.pop(0))
+
+        postfix"""), "PD/Function.infix_to_postfix")
+mutant("pd-operator-pops-paren", PD_PROPS, (T, """                while stack and stack[-1] in factory.objects:
+                    top = factory.objects[stack[-1]]""", """                while stack:
+                    top = factory.objects[stack[-1]]"""), "PD/Function.infix_to_postfix/no-internal-error")
+mutant("pd-rparen-keyerror-type", PD_PROPS, (T, """                if not stack or stack[-1] != "(":
+                    raise SyntaxError(f"mismatching parentheses in: {formula}")
+
+                stack.pop()  # get rid of "(\"""", """                if not stack or stack[-1] != "(":
+                    raise RuntimeError(f"mismatching parentheses in: {formula}")
+
+                stack.pop()  # get rid of "(\""""), "PD/Function.infix_to_postfix/unbalanced")
+mutant("pd2-arity-ge", ["C16", "C17"], (T, "                if element.arity > len(stack):", "                if element.arity > len(stack) + 1:"), "PD2/Function.parse")
+mutant("pd2-left-right-swapped", ["C16", "C17"], (T, """                if element.arity >= 1:
+                    node.right = stack.pop()
+                if element.arity == 2:
+                    node.left = stack.pop()""", """                if element.arity >= 1:
+                    node.left = stack.pop()
+                if element.arity == 2:
+                    node.right = stack.pop()"""), "PD2/Function.parse/tree")
+mutant("pd2-many-roots-accepted", ["C16", "C17"], (T, """        if len(stack) != 1:
+            raise SyntaxError(f"invalid formula: '{formula}'")""", """        if len(stack) < 1:
+            raise SyntaxError(f"invalid formula: '{formula}'")"""), "PD2/Function.parse/single-root")
+mutant("pd2-variable-as-constant", ["C16", "C17"], (T, """                except ValueError:
+                    node = Function.Node(variable=token)""", """                except ValueError:
+                    node = Function.Node(constant=token)"""), "PD2/Function.parse/tree")
+
+# ------------------------------------------------------------------------------------------ Y-sem (Settings.context), session 3
+CTX_TAIL = """        rollback_settings = vars(self).copy()
+        for key, value in context_settings.items():
+            setattr(self, key, value)
+        try:
+            yield
+        finally:
+            for key, value in context_settings.items():
+                setattr(self, key, rollback_settings[key])
+"""
+mutant("c20-sem-snapshot-after-apply", "C20", (L, CTX_TAIL, """        for key, value in context_settings.items():
+            setattr(self, key, value)
+        rollback_settings = vars(self).copy()
+        try:
+            yield
+        finally:
+            for key, value in context_settings.items():
+                setattr(self, key, rollback_settings[key])
+"""), "Y-sem/Settings.context/restored")
+mutant("c20-sem-restore-all", "C20", (L, CTX_TAIL, CTX_TAIL.replace("""            for key, value in context_settings.items():
+                setattr(self, key, rollback_settings[key])""", """            for key in rollback_settings:
+                setattr(self, key, rollback_settings[key])""")), "Y-sem/Settings.context/others-untouched")
+mutant("c20-sem-swallow", "C20", (L, CTX_TAIL, CTX_TAIL.replace("""        finally:
+            for key, value""", """        except ValueError:
+            pass
+        finally:
+            for key, value""")), "Y-sem/Settings.context/protocol")
+mutant("c20-sem-restore-first-only", "C20", (L, CTX_TAIL, CTX_TAIL.replace("""                setattr(self, key, rollback_settings[key])
+""", """                setattr(self, key, rollback_settings[key])
+                break
+""")), "Y-sem/Settings.context/restored")
+mutant("c20-sem-apply-none-too", "C20", (L, """if not (key == "self" or value is None)""", """if not (key == "self")"""), "Y-sem/Settings.context")
+mutant("c20-sem-restore-new-value", "C20", (L, CTX_TAIL, CTX_TAIL.replace("setattr(self, key, rollback_settings[key])", "setattr(self, key, value)")), "Y-sem/Settings.context/restored")
+mutant("c20-sem-delattr", "C20", (L, CTX_TAIL, CTX_TAIL.replace("setattr(self, key, rollback_settings[key])", "delattr(self, key)")), "Y-sem/Settings.context")
+
+# ------------------------------------------------------------------------------------------ other rules added in session 3
+mutant("c18-g10-all-active", "C18", (X, """                if variable in active_variables:
+                    dx = variable.drange / max(1.0, resolution)""", """                if resolution > 0:
+                    dx = variable.drange / max(1.0, resolution)"""), "G10/FldExporter.write_from_scope")
+mutant("c18-g10-inverted", "C18", (X, """                if variable in active_variables:
+                    dx = variable.drange / max(1.0, resolution)""", """                if variable not in active_variables:
+                    dx = variable.drange / max(1.0, resolution)"""), "G10/FldExporter.write_from_scope")
+mutant("c19-tok-consequent", ["C16", "C19"], (R, """        token: str | None = None
+        for token in self.text.split():
+            if state & s_variable:
+                variable = output_variables.get(token)""", """        token: str | None = None
+        for token in self.text.split(" "):
+            if state & s_variable:
+                variable = output_variables.get(token)"""), "Consequent.load/tokeniser")
+mutant("c19-tok-join-tab", ["C16", "C19"], (R, """self.antecedent.text = " ".join(antecedent)""", """self.antecedent.text = "\\t".join(antecedent)"""), "Rule.parse/antecedent-text")
+mutant("c17-const-precedence-low", "C17", (F, """                lambda: np.pi,
+                arity=0,
+                precedence=p(0),""", """                lambda: np.pi,
+                arity=0,
+                precedence=p(5),"""), "T1/FunctionFactory/pi/constant")
+mutant("c13-copy-restarts-original", "C13", (E, """        engine = copy.deepcopy(self)
+        return engine""", """        engine = copy.deepcopy(self)
+        self.restart()
+        return engine"""), "H4/Engine.copy/original-untouched")
+mutant("c12-who-writes-value", ["C12", "C02"], (V, """        self.previous_value = nan
+        self.value = nan""", """        self.previous_value = nan
+        self._value = nan"""), "writes-_value")
+mutant("c07-degree-out-param", ["C07", "C13"], (T, "self._degree = np.nan_to_num(value, nan=0.0, neginf=0.0, posinf=1.0)", "self._degree = np.nan_to_num(value, nan=0.0, neginf=0.0, posinf=1.0, copy=False)"), "in-place:copy=False")
+mutant("c04-raw-product", ["C04", "C02"], (N, """        a = scalar(a)
+        b = scalar(b)
+        return a * b""", """        return scalar(a * b)"""), "V8/AlgebraicProduct.compute")
+mutant("c05-raw-square", ["C05", "C02"], (H, """        x = scalar(x)
+        y = x**2
+        return y""", """        y = scalar(x**2)
+        return y"""), "V8/Very.hedge")
+mutant("c15-truthy-rule-block", ["C14", "C15"], (X, """        return self.to_string(rule_block)
+
+    def term(self, term: Term, /) -> str:""", """        return self.to_string(rule_block) if rule_block else "None"
+
+    def term(self, term: Term, /) -> str:"""), "truthiness:rule_block")
+mutant("c08-bypass-trigger", ["C01", "C07", "C08"], (A, """                rule.activate_with(conjunction, disjunction)
+                rule.trigger(implication)
+
+
+class First""", """                rule.activate_with(conjunction, disjunction)
+                rule.trigger(implication)
+                rule.consequent.modify(rule.activation_degree, implication)
+
+
+class First"""), "modifies-consequent")
+mutant("c16-consequent-or-update", ["C16", "C07"], (R, """                    proposition.hedges.append(hedge)  # type: ignore
+                    state = s_hedge | s_term
+                    continue
+
+            if state & s_term:
+                terms = {t.name: t for t in proposition.variable.terms}  # type: ignore""", """                    proposition.hedges.append(hedge)  # type: ignore
+                    state = s_hedge | s_term
+                    state |= s_and
+                    continue
+
+            if state & s_term:
+                terms = {t.name: t for t in proposition.variable.terms}  # type: ignore"""), "Consequent.load")
